@@ -29,6 +29,7 @@ type c12case struct {
 	Always  bool   `json:"interrupt_always_flag"`
 	Testing bool   `json:"under_go_test"`
 	Admit   bool   `json:"admitted"`
+	Deny    string `json:"denied_by,omitempty"` // off | level (logger one step more severe than the record; only possible for Fatal)
 	Format  string `json:"format"`
 	Kind    string `json:"logger"` // root | child | default
 }
@@ -42,13 +43,20 @@ func c12enumerate() []c12case {
 			for _, noint := range []bool{false, true} {
 				for _, always := range []bool{false, true} {
 					for _, testing := range []bool{false, true} {
-						for _, admit := range []bool{true, false} {
+						for _, admit := range []string{"yes", "off", "level"} {
+							if admit == "level" && sev == "panic" {
+								continue // nothing is more severe than Panic
+							}
 							for _, f := range []string{"json", "logfmt", "color"} {
 								for _, k := range []string{"root", "child", "default"} {
 									if strings.HasPrefix(e, "pkg.") != (k == "default") {
 										continue
 									}
-									out = append(out, c12case{e, sev, noint, always, testing, admit, f, k})
+									deny := ""
+									if admit != "yes" {
+										deny = admit
+									}
+									out = append(out, c12case{Entry: e, Sev: sev, NoInt: noint, Always: always, Testing: testing, Admit: admit == "yes", Deny: deny, Format: f, Kind: k})
 								}
 							}
 						}
@@ -105,9 +113,12 @@ func c12exec(c *Ctx, out string) {
 	default:
 		lg.SetColorMode(true)
 	}
-	if cs.Admit {
+	switch {
+	case cs.Admit:
 		lg.SetLevel(slog.InfoLevel)
-	} else {
+	case cs.Deny == "level":
+		lg.SetLevel(slog.PanicLevel) // admits Panic only: a Fatal record is below the threshold
+	default:
 		lg.SetLevel(slog.OffLevel)
 	}
 	if cs.Kind == "default" {
